@@ -249,14 +249,21 @@ theorem C05_unlisted_spec (env : Env) (rf : Form → GS → Res → Option (List
   · simp only [apply, Option.some.injEq, Prod.mk.injEq] at happ
     exact ⟨happ.1.symm, happ.2.symm⟩
 
-/-- The text model admits each of them with the operand count of the ISO tables, at page level. -/
+/-- The text model admits each of them with at most the operand count of the ISO tables: at page
+level all of them, inside a text object those Figure 9 allows there (general graphics state, marked
+content, `BX EX`). -/
 theorem C05_unlisted_admitted (env : Env) (rf : Form → GS → Res → Option (List Glyph)) (s : SState) (n : String)
     (k : Nat) (args : List Obj) (hk : neutralArity n = some k) (hlen : args.length ≤ k)
-    (hb : args.any Obj.isBool = false) (hpage : s.txt = none) :
+    (hb : args.any Obj.isBool = false) (hplace : s.txt = none ∨ neutralInText n = true) :
     step env rf s ⟨.other n, args⟩ = some (s, []) := by
+  have hall : allowed s.txt.isSome (.other n) = true := by
+    rcases hplace with h | h
+    · simp [allowed, h, hk, isTextState, isColour]
+    · cases ht : s.txt with
+      | none => simp [allowed, hk, isTextState, isColour]
+      | some t => simp [allowed, h, isTextState, isColour]
   unfold step
-  simp only [sig, hk, Option.map_some, hpage, Option.isSome_none, allowed, isTextState, isColour, Bool.false_eq_true,
-    if_false, Bool.false_or, Option.isSome_some, Bool.not_true, hb, List.length_replicate]
+  simp only [sig, hk, Option.map_some, hall, Bool.not_true, Bool.false_eq_true, if_false, hb, List.length_replicate]
   have : ¬ k < args.length := by omega
   simp only [this, if_false]
   split
